@@ -472,6 +472,30 @@ func (c *c20) Run(cs core.Case) core.Result {
 		if p.Fmt == "par2" {
 			expect("create-invalid-slice-size", runPar(cwd, "c", "-s", "5", spell("s"+ext), spell(w.dataRel[0])), "other-failure")
 		}
+		// option values at and beyond the edges: either a failure status (not 1
+		// or 2, which speak about repair) or a set that verifies
+		for oi, opt := range [][]string{{"-c", "0"}, {"-c", "-1"}, {"-s", "0"}, {"-s", "-8"}, {"-g", "0"}, {"-g", "-3"}, {"-c", "70000"}, {"-s", "3"}, {"-c", "1"}, {"-g", "100000"}} {
+			if p.Fmt == "par1" && (opt[0] == "-s" || opt[0] == "-c" && opt[1] == "70000") {
+				continue
+			}
+			oIdx := spell(fmt.Sprintf("opt%d%s", oi, ext))
+			var or cliRun
+			if opt[0] == "-g" {
+				or = runPar(cwd, opt[0], opt[1], "c", "-c", "2", oIdx, spell(w.dataRel[0]))
+			} else {
+				or = runPar(cwd, "c", opt[0], opt[1], oIdx, spell(w.dataRel[0]))
+			}
+			what := "create" + strings.Join(opt, "")
+			switch {
+			case or.exit == 0 && or.signal == "":
+				expect(what, or, "0")
+				expect("verify-after-"+what, runPar(cwd, "v", oIdx), "0")
+			case or.exit == 3:
+				expect(what, or, "3")
+			default:
+				expect(what, or, "other-failure")
+			}
+		}
 		// an input listed twice (overlapping shell globs): either refused, or a
 		// set that verifies
 		{
